@@ -20,7 +20,7 @@ ASSUMPTIONS = ["thread interleavings are sampled (yield injection + repetition),
                "besides the probe-level runs, 24 (quick) / 960 (thorough) runs, with thread switches injected inside the dispatchers, go through the library's real socket and asyncore dispatchers over loopback TCP",
                "senders start after the handshake completed, as applications do (the handshake thread's own writes are covered by C04)"]
 REQUIRED = ["runs", "stanzas_sent", "stanzas_decrypted", "interleaved_runs", "yields_injected", "ping_thread_runs", "entry:top",
-            "entry:sendIq", "entry:below-group", "early_sender_runs", "refused_during_handshake", "real_runs", "real_ok", "wire_bytes_equal", "real:socket", "real:asyncore"]
+            "entry:sendIq", "entry:below-group", "early_sender_runs", "refused_during_handshake", "stalled_write_runs", "stalled_write_ok", "real_runs", "real_ok", "wire_bytes_equal", "real:socket", "real:asyncore"]
 TIMEOUT = {"quick": 400, "thorough": 3600}
 
 YIELD_FILES = ("yowsup/layers/__init__.py", "yowsup/layers/noise/layer.py", "yowsup/layers/noise/layer_noise_segments.py",
@@ -233,7 +233,7 @@ def one_run(acc, seed, tag, d):
         return
     acc.count("stanzas_sent", len(sent))
     acc.count("refused_during_handshake", refused["n"])
-    if early and not in_transport():
+    if early and not T.wait(in_transport, 20):
         acc.inconc("%s: handshake did not complete in an early-sender run (%s)" % (tag, srv.errors))
         return
     # the strict peer's verdict
@@ -281,6 +281,91 @@ def one_run(acc, seed, tag, d):
     acc.count("run_ok")
     acc.maxi("frame_bytes", max([len(p) for p in srv.received] or [0]))
 
+
+
+def stalled_write_run(acc, seed, tag, stall=6.5):
+    """A sender is stuck inside its socket write (between a frame's length header and its payload) for several keep-alive
+    intervals while the keep-alive thread comes due: the ping must wait its turn, whatever the wait; afterwards the stream must
+    still be whole frames in counter order."""
+    from vf import tstack, noisepeer, refcodec
+    from yowsup.layers import YowLayerEvent
+    from yowsup.layers.auth import YowAuthenticationProtocolLayer
+    import yowsup.layers.protocol_iq.layer as iqmod
+    r = gen.rng(seed, ID, tag)
+    w = {"tag": tag, "kind": "stalled-write", "stall_s": stall}
+    srv = noisepeer.NoiseServer()
+    prof = tstack.make_profile("c11s_%s" % tag.replace("/", "_"), server_static=srv.static_public)
+    T = build(prof)
+    T.attach(srv)
+    T.auth()
+    if not T.wait(lambda: len(srv.out) > 0, 20):
+        acc.inconc("%s: no client hello" % tag)
+        return
+    T.deliver(srv.take_out())
+    if not T.wait(lambda: srv.state == "transport" and T.noise._wa_noiseprotocol.state == "transport", 20) or T.net_sync(20) != "ok":
+        acc.inconc("%s: handshake did not complete" % tag)
+        return
+    acc.count("stalled_write_runs")
+    stalled = threading.Event()
+    release = threading.Event()
+    me = {}
+
+    def after_feed(b):
+        if threading.get_ident() == me.get("id") and not stalled.is_set() and len(b) == 3:
+            stalled.set()               # the 3-byte length header is out, the payload is not
+            release.wait(stall)
+    T.wire.after_feed = after_feed
+    errs = []
+
+    def sender():
+        me["id"] = threading.get_ident()
+        try:
+            T.mid.send(payload_node(random.Random(r.randrange(1 << 30)), "stalled-0"))
+            T.mid.send(payload_node(random.Random(r.randrange(1 << 30)), "stalled-1"))
+        except Exception as e:  # noqa
+            errs.append((type(e).__name__, str(e)[:200]))
+    old_time = iqmod.time
+    iqmod.time = FastClock()
+    th = threading.Thread(target=sender, name="verif-stalled-sender")
+    try:
+        th.start()
+        if not stalled.wait(10):
+            acc.inconc("%s: the write never reached the stall point" % tag)
+            return
+        # the keep-alive starts now and comes due at once (fast clock), far more often than the stall lasts
+        T.stack.broadcastEvent(YowLayerEvent(YowAuthenticationProtocolLayer.EVENT_AUTHED, passive=False))
+        th.join(stall + 20)
+        time.sleep(0.05)
+    finally:
+        release.set()
+        T.iq.stop_thread()
+        iqmod.time = old_time
+        T.wire.after_feed = None
+    if th.is_alive():
+        acc.inconc("%s: stalled sender did not finish" % tag)
+        return
+    T.net_sync(10)
+    T.close()
+    if errs:
+        acc.violation("stalled-write:send-raises:%s" % errs[0][0], "the stalled sender got %s: %s" % errs[0], w)
+        return
+    if srv.state == "error":
+        acc.violation("stalled-write:stream-corrupt", "while one sender was stuck in its socket write for %.1f s another thread's frame went in between: %s" % (stall, srv.errors), w)
+        return
+    ids = []
+    for p in srv.received:
+        try:
+            t = refcodec.decode(p)
+        except refcodec.FormatError as e:
+            acc.violation("stalled-write:frame-invalid", "a decrypted frame is not a valid stanza: %s" % e, w)
+            return
+        ids.append(t[1].get("id"))
+    if ids[:2] != ["stalled-0", "stalled-1"] and [i for i in ids if i in ("stalled-0", "stalled-1")] != ["stalled-0", "stalled-1"]:
+        acc.violation("stalled-write:lost-or-reordered", "the stalled sender's stanzas arrived as %s" % ids[:6], w)
+        return
+    acc.count("stalled_write_ok")
+    acc.count("pings_after_stall", len([i for i in ids if i not in ("stalled-0", "stalled-1")]))
+    acc.case(["stalled", tag], nontrivial=True)
 
 
 def real_run(acc, seed, tag, dispatcher_name, nthreads, per_thread):
@@ -407,12 +492,18 @@ def shards(tier, seed, nworkers):
     for dname in ("socket", "asyncore"):
         for k in range(1 if q else 8):
             specs.append({"kind": "real", "dispatcher": dname, "rep": k, "n": 12 if q else 60})
+    for k in range(1 if q else 8):
+        specs.append({"kind": "stalled", "rep": k})
     return specs
 
 
 def run(spec, acc):
     from vf import env
     env.shim_thirdparty()
+    if spec["kind"] == "stalled":
+        stalled_write_run(acc, spec["seed"], "stalled/%d" % spec["rep"])
+        acc.sample({"stalled_write": "sender stuck 6.5 s between header and payload while the keep-alive comes due"})
+        return
     if spec["kind"] == "real":
         for i in range(spec["n"]):
             r = gen.rng(spec["seed"], ID, "real/%s/%d/%d" % (spec["dispatcher"], spec["rep"], i))
